@@ -351,36 +351,42 @@ class SATEncoder:
         max_end = max(s.ub + d for s, d in zip(starts, durations))
 
         for t in range(min_start, max_end):
+            # One literal per task, true iff the task is running at time t
             active_lits = []
             active_demands = []
             for i in range(n):
-                for s in range(max(starts[i].lb, t - durations[i] + 1), min(starts[i].ub, t) + 1):
-                    if s in starts[i].bool_vars and s <= t < s + durations[i]:
-                        active_lits.append(starts[i].bool_vars[s])
-                        active_demands.append(demands[i])
+                lits = [
+                    starts[i].bool_vars[s]
+                    for s in range(max(starts[i].lb, t - durations[i] + 1), min(starts[i].ub, t) + 1)
+                ]
+                if not lits or demands[i] <= 0:
+                    continue
+                if len(lits) == 1:
+                    running = lits[0]
+                else:
+                    running = self._new_bool_var()
+                    self._clauses.append([-running] + lits)
+                    for lit in lits:
+                        self._clauses.append([-lit, running])
+                active_lits.append(running)
+                active_demands.append(demands[i])
 
-            if not active_lits:
-                continue
-
-            if len(active_lits) <= 10:
-                self._encode_capacity_constraint(active_lits, active_demands, capacity)
+            self._encode_capacity_constraint(active_lits, active_demands, capacity)
 
     def _encode_capacity_constraint(self, lits: list[int], demands: list[int], capacity: int) -> None:
-        """Encode sum constraint: if all lits true, demands sum must <= capacity."""
-        n = len(lits)
-        for size in range(1, n + 1):
-            for subset in combinations(range(n), size):
-                if sum(demands[i] for i in subset) > capacity:
-                    is_minimal = True
-                    for smaller_size in range(1, size):
-                        for smaller in combinations(subset, smaller_size):
-                            if sum(demands[i] for i in smaller) > capacity:
-                                is_minimal = False
-                                break
-                        if not is_minimal:
-                            break
-                    if is_minimal:
-                        self._clauses.append([-lits[i] for i in subset])
+        """Encode sum constraint: forbid every minimal subset of lits whose (positive) demands exceed capacity."""
+        order = sorted(range(len(lits)), key=lambda i: -demands[i])
+
+        def extend(start: int, chosen: list[int], load: int) -> None:
+            # Demands are visited in decreasing order, so a subset that first exceeds capacity is minimal
+            for k in range(start, len(order)):
+                i = order[k]
+                if load + demands[i] > capacity:
+                    self._clauses.append([-lits[j] for j in chosen] + [-lits[i]])
+                else:
+                    extend(k + 1, chosen + [i], load + demands[i])
+
+        extend(0, [], 0)
 
     # Constraint dispatcher
 
